@@ -79,6 +79,7 @@ def gen_spec(seed: int, idx: int, tier: str) -> tuple[dict, list[dict], random.R
     spec["missing_tmp"] = rng.random() < 0.04
     if spec["missing_tmp"]:
         spec["decoys"] = {k: v for k, v in spec["decoys"].items() if not k.startswith(("tmp/", "alt-tmp/"))}
+    spec["symlink_tmp"] = (not spec["missing_tmp"]) and rng.random() < 0.06
     spec["t0"] = procworld.T0 + rng.choice([0, 0, 86400 * 200, -86400 * 3000, 86400 * 9000])
     if rng.random() < 0.3:
         kinds = []
